@@ -129,11 +129,57 @@ func runReqCase(c reqCase) (obs reqObs) {
 	}
 	stA := dagreal.NewStore(nil)
 	stA.OnRead = func(c cid.Cid, ok bool) {
-		if !ok {
+		if _, mine := d.LabelOf[c]; !ok && mine {
 			gate("storage", 0)
 		}
 	}
-	gsA := gsimpl.New(ctx, epA, stA.LinkSystem()).(*gsimpl.GraphSync)
+	startBlocked := len(c.Script) > 0 && c.Script[0].Ev == "blockedstart"
+	var optsA []gsimpl.Option
+	if startBlocked {
+		optsA = append(optsA, gsimpl.MaxInProgressOutgoingRequests(1))
+	}
+	gsA := gsimpl.New(ctx, epA, stA.LinkSystem(), optsA...).(*gsimpl.GraphSync)
+	pZ := peer.ID("silent-Z")
+	epZ := net.Endpoint(ctx, pZ)
+	epZ.SetDelegate(&rawRecv{})
+	var blockerCancel context.CancelFunc
+	blockerDone := make(chan struct{})
+	if startBlocked {
+		// another request, to a silent peer, occupies the only worker
+		bt := dagreal.Tree{N: 1, Par: []int{0, 0}, Dep: []int{0, 0}, Cid: []int{0, 1}}
+		bd, _ := dagreal.Build(bt, fmt.Sprintf("blocker%d", c.ID))
+		var bctx context.Context
+		bctx, blockerCancel = context.WithCancel(ctx)
+		bp, be := gsA.Request(bctx, pZ, cidlink.Link{Cid: bd.Root}, sel)
+		go func() {
+			for bp != nil || be != nil {
+				select {
+				case _, ok := <-bp:
+					if !ok {
+						bp = nil
+					}
+				case _, ok := <-be:
+					if !ok {
+						be = nil
+					}
+				}
+			}
+			close(blockerDone)
+		}()
+		// wait until the blocker has gone to the network (it is then parked waiting for Z)
+		for i := 0; i < 2000; i++ {
+			sent := false
+			for _, s := range net.Log() {
+				if s.To == pZ {
+					sent = true
+				}
+			}
+			if sent {
+				break
+			}
+			time.Sleep(100 * time.Microsecond)
+		}
+	}
 	react := "ok"
 	hookPeers := map[string]bool{}
 	blockHookPeers := map[string]bool{}
@@ -279,7 +325,7 @@ func runReqCase(c reqCase) (obs reqObs) {
 	wireNow := func() [][]string {
 		var w [][]string
 		for _, s := range net.Log() {
-			if s.From != pA {
+			if s.From != pA || s.To == pZ {
 				continue
 			}
 			for _, r := range s.Msg.Requests() {
@@ -357,6 +403,17 @@ func runReqCase(c reqCase) (obs reqObs) {
 		}
 		drainNew()
 		switch e.Ev {
+		case "blockedstart":
+		case "free":
+			if blockerCancel != nil {
+				blockerCancel()
+				select {
+				case <-blockerDone:
+				case <-time.After(2 * time.Second):
+					obs.Desync = "blocker request did not end"
+				}
+				barrier()
+			}
 		case "hook":
 			release(e.A)
 		case "B":
@@ -474,7 +531,11 @@ func runReqCase(c reqCase) (obs reqObs) {
 		_ = id
 		obs.Diag = append(obs.Diag, ds...)
 	}
-	obs.Protected = epA.Conn.Protected()
+	for _, k := range epA.Conn.Protected() {
+		if len(k) >= len(pB) && k[:len(pB)] == string(pB) {
+			obs.Protected = append(obs.Protected, k)
+		}
+	}
 	for _, e := range []*[]string{&obs.Errs, &obs.Hooks, &obs.BlockHookPeers, &obs.Diag, &obs.Protected} {
 		if *e == nil {
 			*e = []string{}
